@@ -381,6 +381,16 @@ def proof_stage(res, prop, extra_targets=None):
     hits = coq_forbidden_hits()
     if not res.obligation(not hits, "forbidden constructs: %s" % hits[:5]):
         all_ok = False
+    if ok and res.tier == "thorough":
+        # independent re-check of the compiled closure of the property file
+        with Lock("coq"):
+            rc, out = sh(["coqchk", "-silent", "-o", "-Q", "theories", "RZ", "RZ.Props.%s" % prop], cwd=COQ, timeout=3000)
+        m = re.search(r"\* Axioms:\s*(.*?)\n\s*\n", out, re.S)
+        axioms = m.group(1).strip() if m else "?"
+        good = rc == 0 and axioms == "<none>" and "type-in-type: <none>" in out and "positivity is assumed: <none>" in out
+        res.obligation(good, "coqchk -o RZ.Props.%s: rc=%s axioms=%s" % (prop, rc, axioms[:200]))
+        res.extra["coqchk"] = {"rc": rc, "axioms": axioms[:500]}
+        all_ok &= good
     return all_ok
 
 
@@ -483,3 +493,45 @@ def load_corpus(prop, key):
             if f.endswith(".json"):
                 out += json.load(open(os.path.join(d, f))).get(key, [])
     return out
+
+
+def replay(prop, mod, path):
+    """./check Cxx --replay <file>: re-run the recorded case on the current /repo tree and re-judge it."""
+    if hasattr(mod, "main") and hasattr(mod, "replay_main"):
+        return mod.replay_main(path)
+    r = json.load(open(path))
+    case = r.get("case")
+    sub = r.get("harness")
+    print("replay of %s: %s" % (path, r.get("what") or r.get("kind") or r.get("broken")))
+    if case is None or sub is None:
+        print("this replay names a broken proof/correspondence obligation, not an input:")
+        print(json.dumps({k: v for k, v in r.items() if k != "log"}, indent=1)[:3000])
+        return 1
+    ok, log = build_harness()
+    if not ok:
+        print("harness does not build: " + log[-2000:])
+        return 1
+    strip = None
+    for name in ("strip", "stack_strip"):
+        if hasattr(mod, name) and (name == "stack_strip") == (sub == "stack"):
+            strip = getattr(mod, name)
+    hc = strip(case) if strip and all(k in case for k in ("cfg",)) else case
+    obs, hlog = run_harness(sub, [hc], prop, tag="replay")
+    if obs is None:
+        print("harness run failed: " + str(hlog)[-2000:])
+        return 1
+    print("implementation observation now: " + json.dumps(obs[0])[:3000])
+    msg = None
+    for name in ("stack_oracle" if sub == "stack" else "oracle", "oracle", "pair_oracle", "type_oracle"):
+        if hasattr(mod, name):
+            try:
+                msg = getattr(mod, name)(case, obs[0])
+                break
+            except Exception:
+                continue
+    if msg:
+        print("VIOLATION property=%s replay=%s" % (prop, path))
+        print("still failing: " + str(msg))
+        return 1
+    print("the recorded case no longer fails the implementation-side oracle")
+    return 0
